@@ -219,15 +219,22 @@ class Program:
         files = sorted(self.src.glob("*.py"))
         if not files:
             raise AnalysisError(f"no python sources under {self.src}")
+        raw = {}
         for p in files:
-            text = p.read_text()
             try:
-                tree = ast.parse(text, filename=str(p))
+                raw[p.stem] = ast.parse(p.read_text(), filename=str(p))
             except SyntaxError as e:
                 raise AnalysisError(f"{p.name} does not parse: {e}")
+        for p in files:
+            text = p.read_text()
+            tree = ast.parse(text, filename=str(p))
             if not os.environ.get("SA_NO_NORMALISE"):
                 try:
+                    from .normalize import import_private_helpers
+                    shared = import_private_helpers(tree, raw, PKG)
                     self.normalised[p.stem] = normalise_module(tree)
+                    if shared:
+                        self.normalised[p.stem]["helpers_copied_from_other_modules"] = shared
                 except RecursionError as e:  # pragma: no cover
                     raise AnalysisError(f"{p.name}: normalisation failed: {e}")
             m = ModuleInfo(p.stem, p, tree, text)
